@@ -3,7 +3,10 @@
 E2 (exhaustive finite product) with E1-style follow-up observations of the session:
 every case sets the target/source/bystander contents through raw DuckDB, runs ONE MERGE statement (or a history of
 two) through a fakesnow cursor, and compares, against the reference semantics in mc/ref/merge_ref.py,
-  C12.no_exception     a MERGE of the domain executes (and one that must store NULL in a NOT NULL column raises)
+  C12.no_exception     a MERGE of the domain executes (and one that must store NULL in a NOT NULL column raises) -- however the
+                       source's name is spelled at its declaration and at the references (block J: src / SRC / "SRC" are one
+                       Snowflake identifier, every mix is legal; "src" only with itself) x where the statement uses source
+                       columns (ON only / bare in SET or VALUES / inside a larger expression / in a WHEN .. AND condition)
   C12.target_rows      target afterwards == reference (multiset; read through raw DuckDB on another connection)
   C12.touches_nothing_else   source rows, bystander rows, the list of (non-temporary) tables and every same-named table
                        in another schema / database (decoys of the target and source in the current schema) are unchanged
@@ -27,7 +30,12 @@ Domain (explicit alphabets below): deterministic merges only -- source keys are 
 two source rows; clause lists are the valid Snowflake ones (an unconditional clause is the last of its kind; NOT
 MATCHED clauses see only the source).
 
-Not demanded: order of the status columns; `cursor.description` after MERGE (C06); the class/code of the exception
+A step of the harness that goes through the code under test before the MERGE (BEGIN / work / in-transaction MERGE / COMMIT /
+ROLLBACK of a history, BEGIN of the tx scenarios, creation of the user's table) and raises is recorded as a violation
+(class history_step_raised:history=..,step=.. / setup_step_raised:scenario=..,step=..), never as a harness error.
+
+Not demanded: that a source name spelled as two DIFFERENT identifiers (declared "src", referenced src) is refused;
+order of the status columns; `cursor.description` after MERGE (C06); the class/code of the exception
 of a failing MERGE (C07); behaviour of nondeterministic merges, of clause lists Snowflake rejects; what is left of a
 user transaction that the engine aborted because a MERGE inside it hit a constraint (a MERGE that fails inside an open
 transaction WITHOUT aborting it must still be all-or-nothing for the session: class inside_open_transaction:*); row
@@ -283,7 +291,81 @@ def placement(spelling):
     return PLACEMENT.get(spelling, (HOME, HOME))
 
 
-SPELLING_IDS = tuple(SPELLINGS)
+SPELLING_IDS = tuple(SPELLINGS)  # (the source-name spellings below are enumerated by their own block J, not by B-E)
+
+# Spelling of the source's NAME at its declaration x at every reference. In the spellings above the name after USING
+# and the qualifier in front of the source columns are the same text. Snowflake identifiers: an unquoted name denotes
+# its upper-cased form, so  src, SRC and "SRC"  are ONE identifier and every mix of them is a legal way to declare the
+# source / its alias and to refer to it; a quoted lower-case name "src" is a DIFFERENT identifier -- it matches only
+# itself (an alias may be declared so; the stored table S cannot be named "s").
+NAME_FORMS = {
+    "lower": lambda n: n.lower(),
+    "upper": lambda n: n.upper(),
+    "quoted_upper": lambda n: '"' + n.upper() + '"',
+    "quoted_lower": lambda n: '"' + n.lower() + '"',
+}
+SAME_IDENTIFIER = ("lower", "upper", "quoted_upper")
+# how the source is declared: (text after USING with {N} = the name in the declaration's form, the name)
+SRCNAME_DECLS = {
+    "table": ("{N}", "s"),
+    "table_schema_q": ("s1.{N}", "s"),
+    "alias": ("s {AS} {N}", "src"),
+    "alias_noas": ("s {N}", "src"),
+    "subq_alias": (SUBQ + " {AS} {N}", "src"),
+}
+SRCNAME = {}  # spelling id -> (declaration kind, form at the declaration, form at the references)
+for _kind, (_text, _name) in SRCNAME_DECLS.items():
+    _pairs = [(d, r) for d in SAME_IDENTIFIER for r in SAME_IDENTIFIER]
+    if _kind.startswith(("alias", "subq")):
+        _pairs.append(("quoted_lower", "quoted_lower"))  # legal: the alias IS the lower-case identifier
+    for _d, _r in _pairs:
+        _id = f"sn:{_kind}:{_d}:{_r}"
+        SRCNAME[_id] = (_kind, _d, _r)
+        SPELLINGS[_id] = ("{T}", "{T}", _text.replace("{N}", NAME_FORMS[_d](_name)), NAME_FORMS[_r](_name), "upper", False, False, None)
+# ... crossed with WHERE the statement uses source columns (beyond the ON condition, which always names s.k):
+SRC_USE_LISTS = {
+    "on_only": [
+        (("D", None),),
+        (("U", None, "lit"),),
+        (("U", "tgt", "lit"), ("D", None)),
+    ],
+    "bare_in_set_or_values": [
+        (("U", None, "src"),),
+        (("I", None, "cols"),),
+        (("U", None, "two"), ("I", None, "nocols")),
+    ],
+    "inside_expression": [
+        (("U", None, "expr_src"),),
+        (("U", None, "expr_both"),),
+        (("I", None, "expr_v"),),
+        (("I", None, "expr_k"),),
+        (("D", None), ("I", None, "expr_v")),
+    ],
+    "in_when_condition": [
+        (("D", "src"),),
+        (("U", "both", "lit"),),
+        (("I", "src", "lit"),),
+        (("D", "src"), ("U", None, "lit"), ("I", "src", "subset")),
+    ],
+}
+
+
+def source_use(spec):
+    """where the clauses of `spec` use source columns (a function of the statement only) -> one of SRC_USE_LISTS' keys:
+    inside a larger SET / VALUES expression  >  in a WHEN .. AND condition  >  bare in SET / VALUES  >  nowhere (ON only)"""
+    bare, inexpr, cond = set(), set(), set()
+    for c in clauses_ast(spec):
+        cond |= M.refs(c[1], "s")
+        exprs = [e for _col, e in c[2]] if c[0] == "update" else (list(c[3]) if c[0] == "insert" else [])
+        for e in exprs:
+            (bare if e[0] == "s" else inexpr).update(M.refs(e, "s"))
+    if inexpr:
+        return "inside_expression"
+    if cond:
+        return "in_when_condition"
+    return "bare_in_set_or_values" if bare else "on_only"
+
+
 QUICK_SPELLINGS = (
     "plain", "lower", "set_qual", "ident_case", "alias_src", "alias_tgt", "alias_both_noas", "subq", "subq_filter", "db_q",
     "db_q_full", "db_q_tgt", "db_q_tgt_full", "db_q_src",
@@ -307,6 +389,10 @@ def shape_cause(spec, spelling):
     stage 'rejected': the statement is refused before anything is carried out; ('clause', i): clause i cannot be
     carried out (the clauses before it can); 'either': refused, or given up at the first clause (nothing is demanded
     about which, so such cases are not counted as members of the after-error helper class)."""
+    if spelling in SRCNAME:
+        # (these statements are all accepted today; the class only names the cell of the name-spelling dimension)
+        _kind, d, r = SRCNAME[spelling]
+        return f"source_name:declared={d},referenced={r},source_columns={source_use(spec)}", "either"
     tgt, _tq, src, _sq, kwid, _setq, _rev, _flt = SPELLINGS[spelling]
     has_delete = any(c[0] == "D" for c in spec)
     has_insert = any(c[0] == "I" for c in spec)
@@ -508,6 +594,17 @@ def enumerate_cases(tier):
             for tn, spec in hl:
                 for tk, sk in hc:
                     cases.append((f"hist:{h}:{c}:{tn}", tk, sk, ((spec, "plain"),)))
+    # J: spelling of the source name at its declaration x at the references x where source columns are used
+    for sp in SRCNAME:
+        for use in SRC_USE_LISTS:
+            for spec in SRC_USE_LISTS[use]:
+                for tk, sk in SPELL_CONTENTS[:2] if quick else SPELL_CONTENTS:
+                    cases.append(("plain", tk, sk, ((spec, sp),)))
+    if not quick:
+        for sp in SRCNAME:
+            for tk, sk in SPELL_CONTENTS[:2]:
+                cases.append(("follow", tk, sk, ((TEMPLATES["Dc_U_I"], sp),)))
+                cases.append(("notnull", tk, sk, ((NOTNULL_LISTS[4], sp),)))
     # de-duplicate, keep first occurrence (deterministic order)
     seen, out = set(), []
     for c in cases:
@@ -623,7 +720,7 @@ def _reset(conn, raw, sess, tname, trows, srows, user_mc, tloc=HOME, sloc=HOME):
         raw.execute(f"insert into {HOME}.s values " + _vals(DECOY_S))
     if user_mc:
         # through fakesnow, so that the table has a recorded comment and VARCHAR length like any user table
-        conn.cursor().execute("create table merge_candidates (x varchar(10)) comment = 'mine'")
+        _do("create_user_table", lambda: conn.cursor().execute("create table merge_candidates (x varchar(10)) comment = 'mine'"))
         raw.execute("insert into db1.s1.MERGE_CANDIDATES values " + _vals(USER_MC))
 
 
@@ -652,7 +749,7 @@ def execute_step(scenario, tname, sql, tloc=HOME, sloc=HOME):
     cur = conn.cursor()
     in_tx = scenario in ("tx_rollback", "tx_commit")
     if in_tx:
-        cur.execute("BEGIN")
+        _do("begin", lambda: cur.execute("BEGIN"))
     dc = conn.cursor(DictCursor)
     try:
         dc.execute(sql)
@@ -760,7 +857,11 @@ def judge(scenario, tname, spec, spelling, srows, o):
     if cause and not ref["error"]:  # (where the reference demands an error, an error is not a failure of the member)
         memb.append(("C12.no_exception", cause[0], got[0] == "err"))
     if got[0] == "err" and not ref["error"]:
-        cls = cause[0] if cause else f"unexplained:{got[1].rsplit('.', 1)[-1]},spelling={spelling},clauses={_kinds_sig(spec)}"
+        if scenario in ("tx_rollback", "tx_commit"):
+            # (inside the user's transaction the spelling is not what the case is about: one class per scenario)
+            cls = f"in_transaction:merge_raised,scenario={scenario}"
+        else:
+            cls = cause[0] if cause else f"unexplained:{got[1].rsplit('.', 1)[-1]},spelling={spelling},clauses={_kinds_sig(spec)}"
         viol.append(("C12.no_exception", cls, {"got": got}))
     if got[0] == "ok" and ref["error"]:
         viol.append(("C12.no_exception", "null_stored_in_not_null_column", {"got": got}))
@@ -889,14 +990,32 @@ def _quiet(f):
         return type(e).__name__
 
 
+class StepRaised(Exception):
+    """a step of the harness that goes through the code under test (BEGIN / COMMIT / ROLLBACK / work of a history, the
+    MERGE of a history, the creation of the user table) raised: that is an observation, not a harness error"""
+
+    def __init__(self, step, exc):
+        super().__init__(step)
+        self.step = step
+        self.what = (f"{type(exc).__module__}.{type(exc).__name__}", str(exc).split("\n")[0][:100])
+
+
+def _do(step, f):
+    try:
+        return f()
+    except Exception as e:  # noqa: BLE001
+        raise StepRaised(step, e) from None
+
+
 def run_history(history, conn2, cur, raw, tname):
-    """carry out the history on a fresh connection; -> what happened (part of the observation)"""
+    """carry out the history on a fresh connection; -> what happened (part of the observation).
+    Raises StepRaised(step kind) when a step that must succeed raises."""
     log = []
     if history == "fresh":
         return log
-    cur.execute("BEGIN")
+    _do("begin", lambda: cur.execute("BEGIN"))
     if history in ("rejected_commit", "rejected_conn_commit"):
-        cur.execute("insert into pk values (1)")
+        _do("work", lambda: cur.execute("insert into pk values (1)"))
         raw.execute("BEGIN")
         raw.execute("insert into db1.s1.pk values (1)")
         raw.execute("COMMIT")  # the other session wins
@@ -904,19 +1023,19 @@ def run_history(history, conn2, cur, raw, tname):
         log.append(_quiet((lambda: cur.execute("COMMIT")) if history == "rejected_commit" else conn2.commit))
         return log
     if history == "merge_in_tx_conn_commit":
-        cur.execute(render(TEMPLATES["U"], "plain", tname))
+        _do("merge", lambda: cur.execute(render(TEMPLATES["U"], "plain", tname)))
     else:
-        cur.execute(HIST_WORK)
+        _do("work", lambda: cur.execute(HIST_WORK))
     if history == "stmt_commit":
-        cur.execute("COMMIT")
+        _do("commit_statement", lambda: cur.execute("COMMIT"))
     elif history == "stmt_rollback":
-        cur.execute("ROLLBACK")
+        _do("rollback_statement", lambda: cur.execute("ROLLBACK"))
     elif history in ("conn_commit", "merge_in_tx_conn_commit"):
-        conn2.commit()
+        _do("conn_commit", conn2.commit)
     elif history == "conn_rollback":
-        conn2.rollback()
+        _do("conn_rollback", conn2.rollback)
     elif history == "other_cursor_commit":
-        conn2.cursor().execute("COMMIT")
+        _do("commit_statement_on_other_cursor", lambda: conn2.cursor().execute("COMMIT"))
     return log  # open_tx: left open
 
 
@@ -931,13 +1050,19 @@ def hist_case(item, acc: core.Acc):
     conn, raw, sess0 = _env()
     trows, srows = target_rows(tk, three=tname == "t3"), source_rows(sk)
     _reset(conn, raw, sess0, tname, trows, srows, False)
-    conn2 = _W["fs"].connect(database="db1", schema="s1")
+    try:
+        conn2 = _do("connect", lambda: _W["fs"].connect(database="db1", schema="s1"))
+    except StepRaised as e:
+        return _history_step_raised(item, acc, e, history, "(not reached)")
     try:
         sess = observe.engine_conn(conn2)
-        cur = conn2.cursor(DictCursor)
-        hlog = run_history(history, conn2, cur, raw, tname)
-        mcur = cur if which == "same" else conn2.cursor(DictCursor)
         sql = render(spec, spelling, tname)
+        try:
+            cur = _do("cursor", lambda: conn2.cursor(DictCursor))
+            hlog = run_history(history, conn2, cur, raw, tname)
+            mcur = cur if which == "same" else _do("cursor", lambda: conn2.cursor(DictCursor))
+        except StepRaised as e:
+            return _history_step_raised(item, acc, e, history, sql)
         # pre-state: what the session sees now (inside open_tx that includes its pending work)
         pre_t = _norm(sess.execute(f"select * from db1.s1.{tname}").fetchall())
         pre_committed = _norm(raw.execute(f"select * from db1.s1.{tname}").fetchall())
@@ -1025,6 +1150,32 @@ def hist_case(item, acc: core.Acc):
     return [(got[0], len(viol))]
 
 
+def _history_step_raised(item, acc, e, history, sql):
+    """the code under test raised in a step BEFORE the MERGE under test (so that MERGE was not run): the in-transaction
+    MERGE of a history -> C12.no_exception; BEGIN / work / COMMIT / ROLLBACK / connect -> C12.atomic (what the session did
+    before must not matter, and here it could not even be done). The class names the history and the step kind."""
+    acc.count("evaluations")
+    acc.count("history_cases")
+    acc.obs((item, "history_step_raised", e.step, e.what))
+    acc.outcome(("hist", history, "step_raised", e.step, e.what[0]))
+    clause = "C12.no_exception" if e.step == "merge" else "C12.atomic"
+    detail = {"step": e.step, "raised": e.what, "scenario": item[0], "merge_not_reached": sql}
+    acc.violation(clause, f"history_step_raised:history={history},step={e.step}", detail, {"case": item, "step": 0, "sql": sql})
+    return [("step_raised", 1)]
+
+
+def _setup_step_raised(item, acc, e, si, sql):
+    """the same for the scenario set-up of the other cases: the user's BEGIN of the tx_* scenarios (C12.atomic), the
+    creation of the user's own table merge_candidates (C12.helper_user_table)"""
+    acc.count("evaluations")
+    acc.obs((item, si, "setup_step_raised", e.step, e.what))
+    acc.outcome(("step_raised", item[0], e.step, e.what[0]))
+    clause = "C12.helper_user_table" if e.step == "create_user_table" else "C12.atomic"
+    detail = {"step": e.step, "raised": e.what, "scenario": item[0], "merge_not_reached": sql}
+    acc.violation(clause, f"setup_step_raised:scenario={item[0]},step={e.step}", detail, {"case": item, "step": si, "sql": sql})
+    return ("step_raised", 1)
+
+
 def _rejoin_label(pre, eff_src, tcols, ast, observed):
     alt = M.merge_clausewise_rejoin(pre, eff_src, tcols, SCOLS, ON, ast)
     return "rejoin" if alt is not None and _norm(alt) == observed else None
@@ -1039,11 +1190,18 @@ def case(item, acc: core.Acc, tier):
     trows, srows = target_rows(tk, three=tname == "t3"), source_rows(sk)
     tloc, sloc = placement(steps[0][1])
     assert all(placement(sp) == (tloc, sloc) for _spec, sp in steps), "the steps of one case share their tables"
-    _reset(conn, raw, sess, tname, trows, srows, scenario == "usertable", tloc, sloc)
     out = []
+    try:
+        _reset(conn, raw, sess, tname, trows, srows, scenario == "usertable", tloc, sloc)
+    except StepRaised as e:
+        return [_setup_step_raised(item, acc, e, 0, render(steps[0][0], steps[0][1], tname))]
     for si, (spec, spelling) in enumerate(steps):
         sql = render(spec, spelling, tname)
-        o = execute_step(scenario, tname, sql, tloc, sloc)
+        try:
+            o = execute_step(scenario, tname, sql, tloc, sloc)
+        except StepRaised as e:
+            out.append(_setup_step_raised(item, acc, e, si, sql))
+            break
         acc.count("evaluations")
         acc.count("merges_executed")
         viol, memb, ref = judge(scenario, tname, spec, spelling, srows, o)
@@ -1082,6 +1240,10 @@ def run(ctx: core.Ctx):
         "contents. I: session history before the MERGE (10 histories) x cursor (the one that issued BEGIN / a new one) x "
         "{MERGE failing in a later clause by NOT NULL, by a column/value count mismatch; succeeding MERGE} on a "
         "connection of its own (thorough: x NOT NULL lists, static-fail lists and templates x 4 contents). "
+        "J: spelling of the source name at its declaration x at the references (lower / upper / quoted upper case: one "
+        "identifier, 3 x 3; quoted lower case with itself) x declaration kind (table, schema-qualified table, alias with / "
+        "without AS, subquery alias) x 15 clause lists by where source columns are used (ON only / bare in SET or VALUES / "
+        "inside an expression / in a WHEN .. AND condition) x 2 contents (thorough: 4, + follow-up and NOT NULL scenarios). "
         "quick = 16 contents, rotating conditions, 22 spellings, reduced B-H. non-trivial = distinct "
         "(scenario, pre-state, source, clauses, spelling) for which the reference affects >= 1 row or demands an error"
     )
@@ -1095,7 +1257,8 @@ def run(ctx: core.Ctx):
     ctx.extra["alphabet"] = {
         "targets": len(ALL_TARGETS), "sources": len(ALL_SOURCES), "kind_lists": len(KIND_LISTS),
         "clause_lists_injective": len(lists_injective()), "spellings": list(SPELLINGS), "set_forms": list(SETS),
-        "insert_forms": list(INSERTS), "conditions": {k: M.sql_expr(v, "t", "s") for k, v in CONDS.items()},
+        "insert_forms": list(INSERTS), "source_name_spellings": len(SRCNAME), "source_use_lists": {k: len(v) for k, v in SRC_USE_LISTS.items()},
+        "conditions": {k: M.sql_expr(v, "t", "s") for k, v in CONDS.items()},
     }  # fmt: skip
     ctx.extra["cases"] = len(cases)
     ctx.pmap(case, cases)
